@@ -1,6 +1,6 @@
 """C02 — async mutex: at most one guard.  Inductive invariant `is_locked <=> one guard exists`."""
 from rl import (entry_methods, fields_of, loc_endswith, path_cond, trace_summary, where, const_of, fmt_val)
-from common import contains, scan_field_writes, scan_calls, scan_aggregates, rpath, poll_variant
+from common import contains, scan_field_writes, scan_calls, scan_aggregates, const_of_rvalue, rpath, poll_variant
 from lib import CheckerError
 
 STATE = 'sync::mutex::MutexState'
@@ -115,7 +115,7 @@ def run(C, R):
         clear_fns = set()
         for fn, s in writes:
             rv = s['rv']
-            val = rv.get('use', {}).get('int') if 'use' in rv else None
+            val = const_of_rvalue(fn, rv)
             if fn.get('impl_adt') != STATE:
                 R.fail('C02.R3', [fn['path'], 'foreign-writer'],
                        'is_locked written outside MutexState: %s' % fn['path'], F.loc(fn, s['ln']))
